@@ -9,7 +9,7 @@ MLS = ("routing",)
 HARNESSES = ()
 THEOREMS = ["C09_ledger", "C09_only_addressee", "C09_only_addressee_any_state", "C09_refused", "C09_at_most_one",
             "C09_no_reply_exactly_once_disconnect", "C09_no_reply_exactly_once_timeout", "C09_no_reply_only_for_open_calls",
-            "C09_no_slot_for_no_reply_flag", "C09_limit", "C09_limit_refuses",
+            "C09_no_slot_for_no_reply_flag", "C09_refused_call_leaves_no_slot", "C09_limit", "C09_limit_refuses",
             "C09_no_reply_refuted"]
 
 NONTRIVIAL = {"reply-delivered", "reply-refused", "noreply-disconnect", "noreply-timeout", "limit-refused", "duplicate-serial-refused",
@@ -27,6 +27,9 @@ def gen_cases(tier, rnd):
     for i in range(n_plain):
         cfg = (1, rnd.choice((1, 2, 2, 3, 3, 4, 50)), -1)
         cases.append(("gen%d" % i, cfg, rg.gen_history(rnd, cfg, "c09", rnd.randint(6, 18))))
+    for i in range(40 if tier == "quick" else 1500):          # stalled recipients: queue at the bus over max_outgoing_bytes
+        cfg = (1, rnd.choice((2, 3, 50)), -1, 30000)
+        cases.append(("queue%d" % i, cfg, rg.gen_history(rnd, cfg, "c09", rnd.randint(7, 16))))
     for i in range(n_timed):
         cfg = (1, rnd.choice((2, 3, 50)), rg.TIMEOUT)
         cases.append(("timed%d" % i, cfg, rg.gen_history(rnd, cfg, "c09", rnd.randint(5, 11))))
@@ -49,12 +52,13 @@ def run(ctx):
         "rule": "histories of 5-18 events over up to 4 live raw clients under the requested-replies-only policy: calls (serials mostly from {1,2,3} "
                 "to force reuse, NO_REPLY_EXPECTED 15%%, unix fds 18%% of fd-capable senders), genuine / duplicate / wrong-serial / third-party / "
                 "to-third-party replies, calls and signals carrying a REPLY_SERIAL, disconnects biased to parties of outstanding calls, RequestName/"
-                "ReleaseName, max_replies_per_connection in {0,1,2,3,4,50}, reply_timeout infinite or %d ms with ticks of %d/%d ms; plus %d "
+                "ReleaseName, recipients that stop reading until their queue at the bus exceeds max_outgoing_bytes=30000 (calls, replies and signals "
+                "to them bounce with LimitsExceeded; later they drain and reply), max_replies_per_connection in {0,1,2,3,4,50}, reply_timeout infinite or %d ms with ticks of %d/%d ms; plus %d "
                 "hand-written boundary scenarios and every 5th (seed-chosen offset; thorough: every) sequence of 3 (thorough: 4) events over a 12-event alphabet (calls, genuine / forged / "
                 "misdirected / wrong-serial replies, disconnects) after three connects.  non-trivial = at least one step whose outcome is a delivered or refused reply, a NoReply, a limit "
                 "or duplicate-serial refusal; distinct = distinct (configuration, event list)" % (rg.TIMEOUT, rg.TICK_PART, rg.TICK_FULL, len([c for c in rg.scenarios() if c[1][0] == 1])),
         "samples": samples[:10], "input_distribution": r["dist"], "traces_validated_against_impl": len(cases) - r["tainted"],
-        "steps_compared": r["steps"], "disagreements_checked": r["disagreements"], "timing_unusable": r["tainted"],
+        "steps_compared": r["steps"], "recipients_stalled_until_queue_full": r["stalls"], "disagreements_checked": r["disagreements"], "timing_unusable": r["tainted"],
         "illformed_histories": r["illformed"], "exhaustive": False,
         "explanation": "theorems: for every history the model's pending-reply table equals the ledger of open calls read off the observable trace "
                        "(on histories without fds / reply-serial-carrying calls), hence only-addressee, at-most-once, NoReply-exactly-once, no slot for "
